@@ -147,6 +147,13 @@ func DrawCSV(t *rapid.T, b CSVBounds) *CSVCase {
 			nrows = 3
 		}
 	}
+	if !manyDups && Rare(t, "manycols", 300) {
+		// more columns than bits in a machine word
+		ncols = rapid.IntRange(63, 70).Draw(t, "manycolsn")
+		if nrows > 3 {
+			nrows = 3
+		}
+	}
 	big := false
 	bigOdds := uint64(60)
 	if b.BigRare {
@@ -196,6 +203,9 @@ func DrawCSV(t *rapid.T, b CSVBounds) *CSVCase {
 		} else {
 			for try := 0; ; try++ {
 				name = "c" + strconv.Itoa(i)
+				if try > 1 {
+					name += "_" + strconv.Itoa(try) // "c10" may exist already as the renamed-duplicate look-alike of "c1"
+				}
 				if try == 0 && rapid.IntRange(0, 3).Draw(t, "fancyname") == 0 {
 					name = drawCell(t, 3, c.Delim, false)
 				}
